@@ -126,7 +126,7 @@ def run(R, job):
         return core.HTMLDependency("d%d" % counter[0], "1.0")
 
     def scalar():
-        return r.choice([None, True, False, 3, 2.5, r.choice(STR), _jsx.jsx("JSX_" + r.choice(["a", "fn1", "Z"])), [1, "x", None], {"k": 1, "b": "v"}, ["n", [True, {"z": None}]]])
+        return r.choice([None, True, False, 3, 2.5, r.choice(STR), _jsx.jsx("JSX_" + r.choice(["a", "fn1", "Z"])), [1, "x", None], {"k": 1, "b": "v"}, ["n", [True, {"z": None}]], (0, 10), ("t", (1, 2)), {"range": (0, 1)}, [("a",)]])
 
     def tag(d):
         kids = [child(d - 1) for _ in range(r.choice([0, 1, 2]))]
